@@ -1,6 +1,7 @@
 package main
 
 import (
+	"strings"
 	"fmt"
 	"go/ast"
 	"go/token"
@@ -210,6 +211,41 @@ func ruleCellFresh(c *Ctx) []Obligation {
 		}
 		return "shared", "expression " + exprStr(e)
 	}
+	// elemFieldVar: the struct field holding the container that the element expression e was read from (nil if unknown)
+	var elemFieldVar func(info *types.Info, scope ast.Node, e ast.Expr, depth int) *types.Var
+	elemFieldVar = func(info *types.Info, scope ast.Node, e ast.Expr, depth int) *types.Var {
+		if depth > 6 {
+			return nil
+		}
+		e = ast.Unparen(e)
+		if st, ok := e.(*ast.StarExpr); ok {
+			e = ast.Unparen(st.X)
+		}
+		switch x := e.(type) {
+		case *ast.Ident:
+			obj := info.Uses[x]
+			if obj == nil || !isLocalVar(info, scope, obj) {
+				return nil
+			}
+			var res *types.Var
+			for _, d := range defsIn(info, scope, obj) {
+				if fv := elemFieldVar(info, scope, d, depth+1); fv != nil {
+					if res != nil && res != fv {
+						return nil
+					}
+					res = fv
+				}
+			}
+			return res
+		case *ast.IndexExpr:
+			return elemFieldVar(info, scope, x.X, depth+1)
+		case *ast.SelectorExpr:
+			if fv, ok := info.Uses[x.Sel].(*types.Var); ok && fv.IsField() {
+				return fv
+			}
+		}
+		return nil
+	}
 	// greatest fixpoint: assume every cell-returning function fresh, drop those with a return that is not
 	// (recursion through itself is then consistent)
 	for fn := range fns {
@@ -265,6 +301,213 @@ func ruleCellFresh(c *Ctx) []Obligation {
 				return true
 			})
 		}
+	}
+	// constructors wrapping one cell: func(inner *Value) *Value whose body stores the parameter into a value struct literal
+	cloneCopiesPayload := func(t types.Type) bool {
+		n := recvNamed(t)
+		if n == nil {
+			return true
+		}
+		for fn, fi := range fns {
+			sig := fn.Type().(*types.Signature)
+			if fn.Name() != "Clone" || sig.Recv() == nil || recvNamed(sig.Recv().Type()) != n {
+				continue
+			}
+			calls := false
+			ast.Inspect(fi.fd.Body, func(m ast.Node) bool {
+				if call, ok := m.(*ast.CallExpr); ok {
+					if sel, ok := call.Fun.(*ast.SelectorExpr); ok && sel.Sel.Name == "Clone" {
+						calls = true
+					}
+				}
+				return true
+			})
+			return calls
+		}
+		return true
+	}
+	wrapsCell := map[*types.Func]bool{}
+	for fn, fi := range fns {
+		sig := fn.Type().(*types.Signature)
+		if sig.Recv() != nil || sig.Params().Len() != 1 || sig.Results().Len() != 1 || !isCell(sig.Params().At(0).Type()) || !isCell(sig.Results().At(0).Type()) {
+			continue
+		}
+		par := sig.Params().At(0)
+		info := fi.p.TypesInfo
+		ast.Inspect(fi.fd.Body, func(n ast.Node) bool {
+			cl, ok := n.(*ast.CompositeLit)
+			if !ok {
+				return true
+			}
+			t := info.TypeOf(cl)
+			if t == nil || !(types.Implements(t, vmV.Type().Underlying().(*types.Interface)) || types.Implements(t, inV.Type().Underlying().(*types.Interface))) {
+				return true
+			}
+			for _, el := range cl.Elts {
+				v := el
+				if kv, ok := el.(*ast.KeyValueExpr); ok {
+					v = kv.Value
+				}
+				if id, ok := ast.Unparen(v).(*ast.Ident); ok && info.Uses[id] == par {
+					// a reference wrapper (the pointer value) shares its target by design: its own Clone() hands the
+					// payload on without cloning it. A containing wrapper (the option) clones the payload.
+					if cloneCopiesPayload(t) {
+						wrapsCell[fn] = true
+					}
+				}
+			}
+			return true
+		})
+	}
+	// containers whose cells are handed out raw (returned, or pushed onto the operand stack) by some engine function:
+	// only those can be written in place by an assignment, so only their cells must not be shared with a payload
+	rawExposed := map[*types.Var]bool{}
+	pushPrim := map[*types.Func]bool{}
+	for fn := range fns {
+		sig := fn.Type().(*types.Signature)
+		if sig.Recv() != nil && sig.Params().Len() == 1 && isCell(sig.Params().At(0).Type()) && sig.Results().Len() == 0 {
+			if n := recvNamed(sig.Recv().Type()); n != nil && n.Obj().Name() == "Core" {
+				pushPrim[fn] = true
+			}
+		}
+	}
+	// resultEscapes: does some caller of fn let the returned cell out (push, return, store, write through it)?
+	// A lookup helper whose result is only wrapped, compared with nil or read is not an lvalue path.
+	escMemo := map[*types.Func]bool{}
+	resultEscapes := func(fn *types.Func) bool {
+		if v, ok := escMemo[fn]; ok {
+			return v
+		}
+		sites, esc := 0, false
+		for _, fi := range fns {
+			info := fi.p.TypesInfo
+			var stack []ast.Node
+			ast.Inspect(fi.fd.Body, func(n ast.Node) bool {
+				if n == nil {
+					stack = stack[:len(stack)-1]
+					return true
+				}
+				stack = append(stack, n)
+				call, ok := n.(*ast.CallExpr)
+				if !ok || CalleeOf(info, call) != fn {
+					return true
+				}
+				sites++
+				var parent ast.Node
+				if len(stack) >= 2 {
+					parent = stack[len(stack)-2]
+				}
+				benignUse := func(par ast.Node, self ast.Expr, grand ast.Node) bool {
+					switch pp := par.(type) {
+					case *ast.CallExpr:
+						if f := CalleeOf(info, pp); f != nil && wrapsCell[f] && len(pp.Args) == 1 && pp.Args[0] == self {
+							return true
+						}
+					case *ast.BinaryExpr:
+						return pp.Op == token.EQL || pp.Op == token.NEQ
+					case *ast.StarExpr:
+						if as, ok := grand.(*ast.AssignStmt); ok {
+							for _, l := range as.Lhs {
+								if l == pp {
+									return false // *cell = … writes in place
+								}
+							}
+						}
+						return true
+					case *ast.ParenExpr:
+						return false
+					}
+					return false
+				}
+				switch par := parent.(type) {
+				case *ast.AssignStmt:
+					id, ok := par.Lhs[0].(*ast.Ident)
+					if !ok || len(par.Rhs) != 1 {
+						esc = true
+						return true
+					}
+					obj := info.Defs[id]
+					if obj == nil {
+						obj = info.Uses[id]
+					}
+					if obj == nil || id.Name == "_" {
+						return true
+					}
+					var st2 []ast.Node
+					ast.Inspect(fi.fd.Body, func(m ast.Node) bool {
+						if m == nil {
+							st2 = st2[:len(st2)-1]
+							return true
+						}
+						st2 = append(st2, m)
+						if u, ok := m.(*ast.Ident); ok && info.Uses[u] == obj {
+							var par2, grand ast.Node
+							if len(st2) >= 2 {
+								par2 = st2[len(st2)-2]
+							}
+							if len(st2) >= 3 {
+								grand = st2[len(st2)-3]
+							}
+							if !benignUse(par2, u, grand) {
+								esc = true
+							}
+						}
+						return true
+					})
+				default:
+					var grand ast.Node
+					if len(stack) >= 3 {
+						grand = stack[len(stack)-3]
+					}
+					if !benignUse(parent, call, grand) {
+						esc = true
+					}
+				}
+				return true
+			})
+		}
+		escMemo[fn] = esc || sites == 0
+		return escMemo[fn]
+	}
+	for thisFn, fi := range fns {
+		info := fi.p.TypesInfo
+		fd := fi.fd
+		wrapsHere := map[*types.Var]bool{}
+		note := func(e ast.Expr) {
+			if e == nil || !isCell(info.TypeOf(e)) {
+				return
+			}
+			if k, _ := classify(info, fd, e, 0); k == "element" {
+				if fv := elemFieldVar(info, fd, e, 0); fv != nil && !wrapsHere[fv] {
+					rawExposed[fv] = true
+				}
+			}
+		}
+		// a function that wraps a cell of the container into the payload wrapper on one branch and hands it out on a
+		// sibling branch implements "read as option, optionally unwrapped" (`->` / `~>`): a value read, not an lvalue path
+		ast.Inspect(fd.Body, func(n ast.Node) bool {
+			if call, ok := n.(*ast.CallExpr); ok && len(call.Args) == 1 {
+				if f := CalleeOf(info, call); f != nil && wrapsCell[f] {
+					if fv := elemFieldVar(info, fd, call.Args[0], 0); fv != nil {
+						wrapsHere[fv] = true
+					}
+				}
+			}
+			return true
+		})
+		ast.Inspect(fd.Body, func(n ast.Node) bool {
+			switch x := n.(type) {
+			case *ast.ReturnStmt:
+				if len(x.Results) > 0 && (thisFn == nil || resultEscapes(thisFn)) {
+					note(x.Results[0])
+				}
+			case *ast.CallExpr:
+				if f := CalleeOf(info, x); f != nil && pushPrim[f] && len(x.Args) == 1 {
+					note(x.Args[0])
+				}
+			}
+			return true
+		})
 	}
 	// sinks
 	var obs []Obligation
@@ -466,6 +709,33 @@ func ruleCellFresh(c *Ctx) []Obligation {
 		scopeStack = append(scopeStack, fi.fd)
 		ast.Inspect(fi.fd.Body, func(n ast.Node) bool {
 			switch s := n.(type) {
+			case *ast.CallExpr:
+				// a constructor that wraps ONE cell into a value (the option's payload): the payload is reachable
+				// through the new value, so it must be a fresh cell like a list element
+				if fn := CalleeOf(info, s); fn != nil && wrapsCell[fn] && len(s.Args) == 1 {
+					if id, ok := ast.Unparen(s.Args[0]).(*ast.Ident); ok && id.Name == "nil" {
+						return true
+					}
+					if k, why := classify(info, fi.fd, s.Args[0], 0); k == "element" {
+					key := fmt.Sprintf("cell|%s|payload of %s", fname, fn.Name())
+					seen[key]++
+					if seen[key] > 1 {
+						key += fmt.Sprintf("#%d", seen[key])
+					}
+					o := Obligation{Key: key, Pos: c.Pos(s.Pos()), Nontrivial: true}
+					switch {
+					case !rawExposed[elemFieldVar(info, fi.fd, s.Args[0], 0)] && elemFieldVar(info, fi.fd, s.Args[0], 0) != nil:
+						o.Status, o.Detail = Discharged, "wraps an element of "+why+"; no engine function hands a cell of that container out raw, so it cannot be written in place and the sharing is unobservable"
+					case reslicedInSameFunc(fi.fd, s, why):
+						o.Status, o.Detail = Discharged, "wraps an element of "+why+" that the same function removes from the container (moved, not shared)"
+					default:
+						o.Status, o.Detail = Violated, fmt.Sprintf("wraps an element of %s into the new %s value: the payload is the container's own cell, so a scalar assigned to the element later changes the wrapped value too", why, fn.Name())
+					}
+					obs = append(obs, o)
+					return true
+				}
+				report(s.Pos(), "payload of "+fn.Name(), "the new "+fn.Name()+" value", s.Args[0], fi.fd)
+				}
 			case *ast.AssignStmt:
 				if len(s.Lhs) != len(s.Rhs) {
 					return true
@@ -496,6 +766,48 @@ func ruleCellFresh(c *Ctx) []Obligation {
 	return obs
 }
 
+
+// lastSelName is the last selector component of an expression's text ("self.Values" → "Values").
+func lastSelName(s string) string {
+	if i := strings.LastIndex(s, "."); i >= 0 {
+		return s[i+1:]
+	}
+	return s
+}
+
+// reslicedInSameFunc: the innermost function (literal) around call also assigns the container a sub-slice of itself.
+func reslicedInSameFunc(fd *ast.FuncDecl, call *ast.CallExpr, container string) bool {
+	var inner ast.Node = fd
+	ast.Inspect(fd.Body, func(n ast.Node) bool {
+		if fl, ok := n.(*ast.FuncLit); ok && fl.Pos() <= call.Pos() && call.End() <= fl.End() {
+			inner = fl
+		}
+		return true
+	})
+	found := false
+	strip := func(e ast.Expr) string {
+		e = ast.Unparen(e)
+		if st, ok := e.(*ast.StarExpr); ok {
+			e = ast.Unparen(st.X)
+		}
+		return exprStr(e)
+	}
+	ast.Inspect(inner, func(n ast.Node) bool {
+		as, ok := n.(*ast.AssignStmt)
+		if !ok || len(as.Lhs) != 1 || len(as.Rhs) != 1 {
+			return true
+		}
+		sl, ok := ast.Unparen(as.Rhs[0]).(*ast.SliceExpr)
+		if !ok {
+			return true
+		}
+		if strip(as.Lhs[0]) == container && strip(sl.X) == container {
+			found = true
+		}
+		return true
+	})
+	return found
+}
 
 // id2expr returns an identifier expression that resolves (through info.Uses) to obj.
 func id2expr(def *ast.Ident, info *types.Info, obj types.Object) ast.Expr {
